@@ -42,7 +42,7 @@ fn long_data() -> Vec<u8> {
 }
 
 pub fn datas() -> Vec<Vec<u8>> {
-    vec![b"".to_vec(), b"a".to_vec(), "é".as_bytes().to_vec(), b"\n".to_vec(), b"a\nb".to_vec(), b"a\r\n".to_vec(), vec![0xFF], long_data()]
+    vec![b"".to_vec(), b"a".to_vec(), "é".as_bytes().to_vec(), b"\n".to_vec(), b"a\nb".to_vec(), b"a\r\n".to_vec(), b"a\r\r\nb\r".to_vec(), vec![0xFF], long_data()]
 }
 
 pub fn line_lists() -> Vec<Vec<String>> {
@@ -1095,7 +1095,7 @@ pub fn run(ctx: &Ctx) -> i32 {
         (
             "bounds",
             J::s(format!(
-                "two files /d/a, /d/b in one directory; {} calls (write_all/append_all x 8 data values incl. empty, multi-byte, newline, CRLF, invalid UTF-8 and 5000 bytes; write_lines/append_lines x 5 line lists; append_line x 5; 6 write()-handle and 5 append()-handle chunk/flush schedules; remove; copy and move_p both ways); Memfs: all histories of length <= {}; Stdfs: all calls from every byte map the model reaches in < {} specified steps",
+                "two files /d/a, /d/b in one directory; {} calls (write_all/append_all x 9 data values incl. empty, multi-byte, newline, CRLF, doubled and trailing bare CR, invalid UTF-8 and 5000 bytes; write_lines/append_lines x 5 line lists; append_line x 5; 6 write()-handle and 5 append()-handle chunk/flush schedules; remove; copy and move_p both ways); Memfs: all histories of length <= {}; Stdfs: all calls from every byte map the model reaches in < {} specified steps",
                 nops, depth, sdepth
             )),
         ),
